@@ -661,6 +661,10 @@ fn corpus() -> Vec<(String, Vec<Act>)> {
         ("skip-indexes-commit-leaves-sketch-gap".into(), vec![
             Act::Op(Op::Put(put(PayloadKind::Ascii, 40, 31, 100))), Act::Op(Op::CommitSkip),
             Act::Op(Op::Put(put(PayloadKind::Ascii, 60, 32, 101))), chk(16), chk(17)]),
+        ("put-and-update-in-one-batch".into(), vec![
+            Act::Op(Op::Put(put_emb(PayloadKind::Ascii, 50, 41, 100, 2))), Act::Op(Op::Put(put_emb(PayloadKind::Ascii, 50, 42, 101, 2))),
+            Act::Op(Op::Update(UpdSpec { id: 0, payload: Some(PayloadSpec::new(PayloadKind::Ascii, 30, 43)), ..Default::default() })),
+            Act::Op(Op::Delete { id: 1 }), chk(18)]),
         ("instant-index-then-probe".into(), vec![
             Act::Op(Op::Put(put(PayloadKind::Ascii, 100, 8, 100))), Act::Op(Op::Commit),
             Act::Op(Op::Put({ let mut p = put(PayloadKind::Ascii, 140, 9, 101); p.instant_index = true; p })), Act::Probe { seed: 21 },
